@@ -424,3 +424,383 @@ def solve_tie(ctx, ncases):
                       "assembly/solve of %s: %s" % (bad[0], bad[1]),
                       {"scenario": calcore.describe(sc), "script": cres[bad[2]][1][:100000],
                        "how": "harness/calcore_solve.c < script; ocaml/_build/drv_calcore2 < cfg/pval/add/system lines"})
+
+
+# ----------------------------------------------------------------------------- leakage tie
+LEAK_TYPES = ["TE10", "UE10", "UE14", "E12"]
+
+
+def plant_partial(rng, sc):
+    """Standards whose ports are only PARTIALLY connected (explicit VNACAL_ZERO cells in a mapped matrix /
+    line): a connected pair beside an isolated port, chains that are connected only transitively, one-way
+    (non-reciprocal) couplings, all-zero off-diagonals; random (permuted) port maps; full or abbreviated
+    measurement matrices.  S is constant over frequency (scalar parameters)."""
+    p = sc.p
+    out = []
+
+    def coupling():
+        return (0.75 + rng.randint(0, 8) / 32.0) * rng.choice([1, -1, 1j, -1j])
+
+    def mk(ports, nz, fn):
+        k = len(ports)
+        pat = [[(calcore.small(rng, 1.6) if a == b else (coupling() if (a, b) in nz else 0j)) for b in range(k)]
+               for a in range(k)]
+        flag = 1
+        if fn == "mm" and k == p and rng.random() < 0.3:
+            ports, flag = list(range(1, p + 1)), 0            # NULL port map: identity
+        st = calcore.Std(fn, ports, calcore.const_over_f(sc.F, pat), mapflag=flag, scalar=True)
+        st.first_of = []
+        st.pattern = sorted(nz)
+        rows, cols = calcore.m_shape_options(sc.typ, sc.r, sc.c, st)
+        st.brows, st.bcols = rng.choice(rows), rng.choice(cols)
+        st.form = "m"
+        out.append(st)
+    two = [{(0, 1)}, {(1, 0)}, set(), {(0, 1), (1, 0)}]
+    for _ in range(rng.randint(1, 3)):
+        mk(rng.sample(range(1, p + 1), 2), rng.choice(two), rng.choice(["ln", "mm"]))
+    if p >= 3:
+        three = [{(0, 1), (1, 0)},                          # pair connected, third port isolated
+                 {(0, 1), (1, 0), (1, 2), (2, 1)},          # chain: 0-2 connected only through 1
+                 {(0, 1), (2, 1)}, {(1, 0), (1, 2)},        # the same with one-way links
+                 {(0, 1)}, {(2, 0)},                        # one non-reciprocal coupling
+                 {(0, 1), (1, 2), (2, 0)},                  # directed cycle
+                 set()]
+        for _ in range(rng.randint(2, 4)):
+            ports = rng.sample(range(1, p + 1), 3)
+            if rng.random() < 0.25:
+                nz, _d = calcore.forest_pattern(rng, p, ports, 3)
+            else:
+                nz = rng.choice(three)
+            mk(ports, set(nz), "mm")
+    return out
+
+
+def gen_leak_scenario(rng, typ, r, c, F):
+    """leakage-type calibration of calcore.gen_scenario (reflects, throughs, lines, mapped and sparse multi-port
+    standards, abbreviated matrices, permuted maps) plus plant_partial; dyadic S and measured values"""
+    sc = calcore.gen_scenario(rng, typ, r, c, F, form="m", vector_prob=0.0, extras=True)
+    extra = plant_partial(rng, sc)
+    for st in extra:
+        sc.stds.insert(rng.randint(0, len(sc.stds)), st)
+    for st in sc.stds:
+        kk = len(st.S[0])
+        new = [[st.S[0][a][b] if st.S[0][a][b] in (0, 1, -1) else complex(float(dy(rng)), float(dy(rng)))
+                for b in range(kk)] for a in range(kk)]
+        st.S = calcore.const_over_f(F, new)
+        st.form = "m"
+        st.Sfull = None
+        st.Mfull = [[[complex(float(dy(rng)), float(dy(rng))) for _ in range(c)] for _ in range(r)] for _ in range(F)]
+    sc.starved = None
+    if rng.random() < 0.3:
+        # a cell with few or no samples (count 0: no mean is subtracted and the saved term is 0): the standards
+        # that sample it are given as abbreviated matrices where that is allowed, the others are left out
+        # (the solve may then stop with "insufficient number of standards" -- after the leakage pass)
+        cell = rng.choice([(i, j) for i in range(r) for j in range(c) if i != j])
+        keep = rng.choice([0, 0, 1, 2])
+        stds = []
+        for st in sc.stds:
+            if cell in oracle_samples(sc, st):
+                if keep > 0:
+                    keep -= 1
+                else:
+                    rows, cols = calcore.m_shape_options(typ, r, c, st)
+                    st.brows, st.bcols = rows[-1], cols[-1]
+                    if cell in oracle_samples(sc, st):
+                        continue
+            stds.append(st)
+        sc.stds = stds
+        sc.starved = cell
+    return sc
+
+
+def oracle_samples(sc, st):
+    """independent of model and library: the cells of the r x c measurement matrix for which standard st is a
+    leakage sample = cell given, off-diagonal, and the two VNA ports in different classes of the equivalence
+    generated by the off-diagonal S cells not known to be zero (cells the caller did not specify -- between
+    two ports the standard is not connected to -- count as unknown; cells between a port of the standard and
+    an unconnected port are known zeros)"""
+    p = sc.p
+    k = max(st.srows, st.scols)
+    ports = [q - 1 for q in st.ports[:k]]
+    comp = list(range(p))
+
+    def find(i):
+        while comp[i] != i:
+            i = comp[i]
+        return i
+    for i in range(p):
+        for j in range(p):
+            if i == j:
+                continue
+            if i in ports and j in ports:
+                a, b = ports.index(i), ports.index(j)
+                if st.fn in ("sr", "dr"):
+                    edge = False
+                elif a < st.srows and b < st.scols:
+                    edge = st.S[0][a][b] != 0
+                else:
+                    edge = True
+            elif i in ports or j in ports:
+                edge = False
+            else:
+                edge = True
+            if edge:
+                comp[find(i)] = find(j)
+    sp = sorted(ports)
+    rows = list(range(sc.r)) if st.brows == sc.r else sp
+    cols = list(range(sc.c)) if st.bcols == sc.c else sp
+    return set((i, j) for i in rows for j in cols if i != j and find(i) != find(j))
+
+
+def leak_positions(typ, r, c):
+    """index in the saved error-term vector of the leakage term of every off-diagonal cell (row-major)"""
+    cells = [(i, j) for i in range(r) for j in range(c) if i != j]
+    if typ == "E12":
+        return {(i, j): j * 3 * r + i for (i, j) in cells}
+    offs, sizes, nt, nel = calcore.layout(typ, r, c)
+    base = c * nt if typ == "UE14" else nt
+    return {cell: base + k for k, cell in enumerate(cells)}
+
+
+def leak_tie(ctx, ncases):
+    """vnlt_sum / vnlt_count of _vnacal_new_solve_start_frequency, the set of (standard, cell) samples, the adjusted
+    measurements vnmm_m_matrix and the saved leakage terms against SolveSimple.leak_acc / leak_mean / m_adjusted /
+    leak_terms (extracted, ocaml/drv_calcore3) and an independent Python account of the samples."""
+    import concurrent.futures
+    drv = calcore.model_driver(ctx, "drv_calcore3")
+    exe = ctx.build_harness("calcore_solve", san=True, wrap=True, defines=["CALCORE_WRAP"],
+                            exclude=("vnacal_new_solve_simple.c",))
+    shapes = {t: [(r, c) for r in range(1, 4) for c in range(1, 4) if dims_allowed(t, r, c) and max(r, c) >= 2]
+              for t in LEAK_TYPES}
+    cases = []
+    for k in range(ncases):
+        rng = random.Random(ctx.rng.getrandbits(64))
+        typ = LEAK_TYPES[k % 4]
+        sh = shapes[typ]
+        r, c = sh[(k // 4) % len(sh)] if k < 4 * len(sh) else rng.choice(sh)
+        cases.append(gen_leak_scenario(rng, typ, r, c, 2 if k % 3 == 2 else 1))
+
+    def run_c(sc):
+        s = calcore.Script()
+        calcore.scenario_script(sc, script=s, do_apply=False)
+        text = s.text()
+        return (s, text) + calcore.run_script(ctx, exe, text)
+    with concurrent.futures.ThreadPoolExecutor(max_workers=min(8, vplib.NPROC)) as ex:
+        cres = list(ex.map(run_c, cases))
+    mlines = []
+    for sc, (s, text, rc, out, err) in zip(cases, cres):
+        if rc != 0:
+            continue
+        handle_of = {"Z": 0, "O": 1, "S": 2}
+        for ln in out.split("\n"):
+            if ln.startswith("scalar "):
+                p_ = ln.split()
+                handle_of["p" + p_[1]] = int(p_[2].split("=")[1])
+        code = 7 if sc.typ == "E12" else TYPE_CODE[sc.typ]
+        s2 = calcore.Script()
+        s2.cache = dict(s.cache)
+        s2.npar = s.npar
+        for f in range(sc.F):
+            mlines.append("cfg %d %d %d %d" % (code, sc.r, sc.c, max(handle_of.values()) + 1))
+            for st in sc.stds:
+                mv = " ".join(ratc((Fraction(st.Mfull[f][i][j].real), Fraction(st.Mfull[f][i][j].imag)))
+                              for i in range(sc.r) for j in range(sc.c))
+                mlines.append(std_model_line(sc, st, s2, handle_of) + " %d %s" % (sc.r * sc.c, mv))
+            mlines.append("leak")
+    rc, mout, merr = vplib.sh([drv], input="\n".join(mlines) + "\n", timeout=1200)
+    if rc != 0:
+        raise vplib.BuildError("drv_calcore3 failed: " + merr[-300:])
+    blocks = mout.split("endleak\n")
+    bi = 0
+    bad = None
+    ncells = nsampled = nzero = nstopped = nstd = nmean_exact = nmean_tol = nadj = nterms = 0
+    maxcount = 0
+    patterns = set()
+
+    def pow2(n):
+        return n > 0 and (n & (n - 1)) == 0
+
+    def close(cv, mv_, exact):
+        if cv == mv_:
+            return True
+        if exact:
+            return False
+        d = abs(complex(float(cv[0] - mv_[0]), float(cv[1] - mv_[1])))
+        return d <= 1e-12 * max(1.0, abs(complex(float(mv_[0]), float(mv_[1]))))
+    for ci, (sc, (s, text, rc, out, err)) in enumerate(zip(cases, cres)):
+        where = "%s %dx%d" % (sc.typ, sc.r, sc.c)
+        if rc != 0:
+            ctx.count()
+            sig = vplib.asan_signature(err) or {"kind": "fault", "error": "exit %d" % rc, "function": None}
+            ctx.violation(sig, "solve harness stopped on %s (leakage tie): %s" % (where, (err.strip().split("\n") or [""])[0][:200]),
+                          {"scenario": calcore.describe(sc), "script": text[:100000], "stderr": err[-3000:]})
+            bad = bad or (where, "harness stopped", ci)
+            continue
+        # library: per frequency
+        clk, cls_, cla, cflag = {}, {}, {}, {}
+        cE = {}
+        for l in out.split("\n"):
+            p_ = l.split()
+            if not p_:
+                continue
+            if p_[0] == "LEAK":
+                f = int(p_[1])
+                cflag[f] = p_[2]
+                clk[f], cls_[f], cla[f] = {}, set(), {}
+            elif p_[0] == "LK":
+                f = int(p_[1])
+                clk[f][(int(p_[2]), int(p_[3]))] = None if p_[4] == "null" else (int(p_[4]), parse_hex_complex(p_[5:7])[0])
+            elif p_[0] == "LS":
+                cls_[int(p_[1])].add((int(p_[2]), int(p_[3]), int(p_[4])))
+            elif p_[0] == "LA":
+                v = parse_hex_complex_opt(p_[4:6])
+                cla[int(p_[1])][(int(p_[2]), int(p_[3]))] = v[0] if v else None
+            elif p_[0] == "E" and len(p_) > 2 and p_[1].isdigit():
+                cE[int(p_[1])] = parse_hex_complex_opt(p_[2:])
+        lpos = leak_positions(sc.typ, sc.r, sc.c)
+        offd = sorted(lpos)
+        osamp = set()
+        for i, st in enumerate(sc.stds):
+            for (a, b) in oracle_samples(sc, st):
+                osamp.add((i, a, b))
+        for f in range(sc.F):
+            ctx.count()
+            blk = blocks[bi].split("\n")
+            bi += 1
+            problem = None
+            mlk, mlm, mls, mla, mlt, mflag = {}, {}, set(), {}, None, None
+            for l in blk:
+                p_ = l.split()
+                if not p_:
+                    continue
+                if p_[0] == "add" and l != "add rc=0":
+                    problem = problem or "model refuses a standard the library accepts: %s" % l
+                elif p_[0] == "LEAK":
+                    mflag = p_[1]
+                elif p_[0] == "LK":
+                    mlk[(int(p_[1]), int(p_[2]))] = (int(p_[3]), parse_rat_complex(p_[4:6])[0])
+                elif p_[0] == "LM":
+                    mlm[(int(p_[1]), int(p_[2]))] = None if p_[3] == "none" else parse_rat_complex(p_[3:5])[0]
+                elif p_[0] == "LS":
+                    mls.add((int(p_[1]), int(p_[2]), int(p_[3])))
+                elif p_[0] == "LA":
+                    mla[(int(p_[1]), int(p_[2]))] = parse_rat_complex(p_[3:5])[0]
+                elif p_[0] == "LT":
+                    mlt = parse_rat_complex(p_[2:])
+            if problem is None and f not in clk:
+                sv = [l for l in out.split("\n") if l.startswith("solve ")]
+                if f > 0 and (f - 1) in clk and sv and "rc=-1" in sv[0]:
+                    # vnacal_new_solve stopped at an earlier frequency (after its leakage pass, which was compared):
+                    # singular system of the random dyadic measurements -- the business of the SolveSimple tie
+                    nstopped += 1
+                    continue
+                problem = "the library did not reach _vnacal_new_solve_simple at frequency %d (%s)" % (f, sv[0] if sv else "no solve line")
+            if problem is None and (cflag[f] != "outside=1" or mflag != "outside=1"):
+                problem = "leakage outside the linear system: library %s, model %s" % (cflag[f], mflag)
+            if problem is None and (sorted(clk[f]) != offd or sorted(mlk) != offd):
+                problem = "leakage cells: library %s, model %s, off-diagonal cells %s" % (sorted(clk[f]), sorted(mlk), offd)
+            if problem is None and cls_[f] != mls:
+                d = sorted(cls_[f] ^ mls)[0]
+                st = sc.stds[d[0]]
+                problem = ("frequency %d: standard %d (%s ports=%s, non-zero off-diagonal S cells %s) %s a leakage sample of "
+                           "cell (%d,%d) in the library and %s in the model" % (
+                               f, d[0], st.fn, st.ports, getattr(st, "pattern", "?"),
+                               "is" if d in cls_[f] else "is not", d[1], d[2], "is" if d in mls else "is not"))
+            if problem is None and mls != osamp:
+                d = sorted(mls ^ osamp)[0]
+                st = sc.stds[d[0]]
+                problem = ("standard %d (%s ports=%s S=%dx%d M=%dx%d): model and library %s cell (%d,%d), the independent "
+                           "account of connected port classes %s" % (
+                               d[0], st.fn, st.ports, st.srows, st.scols, st.brows, st.bcols,
+                               "sample" if d in mls else "do not sample", d[1], d[2], "does" if d in osamp else "does not"))
+            if problem is None:
+                for cell in offd:
+                    cc, cs = clk[f][cell] if clk[f][cell] else (None, None)
+                    mcnt, msum = mlk[cell]
+                    # the sum and count as the definition says, from the scenario itself
+                    who = [i for (i, a, b) in osamp if (a, b) == cell]
+                    osum = (sum(Fraction(sc.stds[i].Mfull[f][cell[0]][cell[1]].real) for i in who),
+                            sum(Fraction(sc.stds[i].Mfull[f][cell[0]][cell[1]].imag) for i in who))
+                    if cc != mcnt:
+                        problem = "frequency %d, cell (%d,%d): vnlt_count %s, leak_acc count %d" % (f, cell[0], cell[1], cc, mcnt)
+                    elif cs != msum:
+                        problem = "frequency %d, cell (%d,%d): vnlt_sum %s, leak_acc sum %s (count %d)" % (
+                            f, cell[0], cell[1], [str(x) for x in cs], [str(x) for x in msum], mcnt)
+                    elif (mcnt, msum) != (len(who), osum):
+                        problem = "frequency %d, cell (%d,%d): count/sum %d %s, sum of the sampled measured values %d %s" % (
+                            f, cell[0], cell[1], mcnt, [str(x) for x in msum], len(who), [str(x) for x in osum])
+                    elif (mlm[cell] is None) != (mcnt == 0) or (mcnt and mlm[cell] != (msum[0] / mcnt, msum[1] / mcnt)):
+                        problem = "cell (%d,%d): leak_mean %s is not sum / count" % (cell[0], cell[1], mlm[cell])
+                    if problem:
+                        break
+                    ncells += 1
+                    nsampled += 1 if mcnt else 0
+                    nzero += 0 if mcnt else 1
+                    maxcount = max(maxcount, mcnt)
+            if problem is None:
+                # vnmm_m_matrix (measured minus mean): exact when the count is a power of two (the mean is dyadic)
+                if sorted(cla[f]) != sorted(mla):
+                    d = sorted(set(cla[f]) ^ set(mla))[0]
+                    problem = "standard %d cell %d is %s in the library and %s in the model" % (
+                        d[0], d[1], "given" if d in cla[f] else "absent", "given" if d in mla else "absent")
+                for key in sorted(mla):
+                    if problem:
+                        break
+                    cell = (key[1] // sc.c, key[1] % sc.c)
+                    cnt = mlk[cell][0] if cell in mlk else 0
+                    exact = cnt == 0 or pow2(cnt)
+                    if cla[f][key] is None or not close(cla[f][key], mla[key], exact):
+                        problem = "frequency %d, standard %d, cell (%d,%d): vnmm_m_matrix %s, m_adjusted %s (count %d)" % (
+                            f, key[0], cell[0], cell[1], [str(x) for x in (cla[f][key] or ())], [str(x) for x in mla[key]], cnt)
+                    else:
+                        nadj += 1
+            if problem is None and cE.get(f) is not None and mlt is not None:
+                # the saved leakage terms (after convert_ue14_to_e12 for E12)
+                for k_, cell in enumerate(offd):
+                    cnt = mlk[cell][0]
+                    exact = cnt == 0 or pow2(cnt)
+                    cv = cE[f][lpos[cell]] if lpos[cell] < len(cE[f]) else None
+                    if cv is None or not close(cv, mlt[k_], exact):
+                        problem = "frequency %d: saved leakage term of cell (%d,%d) %s, leak_terms %s (count %d)" % (
+                            f, cell[0], cell[1], [str(x) for x in (cv or ())], [str(x) for x in mlt[k_]], cnt)
+                        break
+                    if cnt:
+                        if exact:
+                            nmean_exact += 1
+                        else:
+                            nmean_tol += 1
+                if problem is None:
+                    nterms += 1
+            if problem:
+                bad = bad or (where, problem, ci)
+            else:
+                ctx.nontrivial.add(("leak", ci, f))
+                ctx.traces_validated += 1
+                nstd += len(sc.stds)
+                for st in sc.stds:
+                    if getattr(st, "pattern", None) is not None:
+                        patterns.add((len(st.ports), tuple(st.pattern)))
+    ctx.extra["leak_tie_calibrations"] = len(cases)
+    ctx.extra["leak_tie_frequencies_not_reached (solve stopped earlier)"] = nstopped
+    ctx.extra["leak_tie_cells_compared"] = ncells
+    ctx.extra["leak_tie_cells_with_samples"] = nsampled
+    ctx.extra["leak_tie_cells_without_sample"] = nzero
+    ctx.extra["leak_tie_max_count"] = maxcount
+    ctx.extra["leak_tie_standards"] = nstd
+    ctx.extra["leak_tie_partial_patterns"] = len(patterns)
+    ctx.extra["leak_tie_adjusted_values_compared"] = nadj
+    ctx.extra["leak_tie_saved_term_vectors_compared"] = nterms
+    ctx.extra["leak_tie_means_exact / 1e-12"] = [nmean_exact, nmean_tol]
+    ok = bad is None and ncells > 0 and nsampled > 0
+    ctx.obligation("tie:leakage samples/sums/counts/means of _vnacal_new_solve_start_frequency vs SolveSimple.leak_acc (exact)",
+                   ok, "" if bad is None else "%s: %s" % (bad[0], bad[1]))
+    if bad is not None and not any(v.what.startswith("solve harness stopped") and "leakage tie" in v.what for v in ctx.violations):
+        sc = cases[bad[2]]
+        d = calcore.describe(sc)
+        d["cell_with_few_samples"] = sc.starved
+        d["partial_patterns"] = [[i, st.ports, [list(x) for x in st.pattern]] for i, st in enumerate(sc.stds)
+                                 if getattr(st, "pattern", None) is not None]
+        ctx.violation({"kind": "leak-tie", "type": sc.typ, "rows": sc.r, "cols": sc.c},
+                      "leakage of %s: %s" % (bad[0], bad[1]),
+                      {"scenario": d, "script": cres[bad[2]][1][:100000],
+                       "how": "harness/calcore_solve.c < script (LEAK/LK/LS/LA lines); ocaml/_build/drv_calcore3 < cfg/add/leak lines"})
